@@ -8,6 +8,7 @@ import (
 	"sort"
 	"strconv"
 	"strings"
+	"time"
 
 	"github.com/miekg/dns"
 	. "verif/harness/common"
@@ -15,8 +16,8 @@ import (
 
 // types whose String()/parse() follow the presentation grammar of Model/Present.v
 // (playout); tied to the model by the "covered" case.
-var coveredTypes = []uint16{1, 2, 3, 4, 5, 6, 7, 8, 9, 12, 14, 15, 16, 17, 18, 21, 23, 25, 26, 30, 31, 32, 33, 36, 39, 43, 44,
-	47, 48, 49, 52, 56, 57, 58, 59, 60, 61, 62, 63, 99, 101, 102, 105, 107, 256, 258, 261, 32768, 32769}
+var coveredTypes = []uint16{1, 2, 3, 4, 5, 6, 7, 8, 9, 12, 13, 14, 15, 16, 17, 18, 19, 20, 21, 23, 24, 25, 26, 30, 31, 32, 33, 35, 36, 37, 39, 43, 44,
+	46, 47, 48, 49, 50, 51, 52, 53, 56, 57, 58, 59, 60, 61, 62, 63, 99, 100, 101, 102, 105, 107, 256, 257, 258, 261, 32768, 32769}
 
 func isCovered(t uint16) bool {
 	for _, c := range coveredTypes {
@@ -76,8 +77,30 @@ func showToks(ts []dns.VerifC05Tok) string {
 
 // field values of rr in the model's notation (by struct tag, independent of
 // the model's layout table)
-func pvals(rr dns.RR) []string {
+//
+// now >= 0: the values as the printer sees them (RRSIG times carry the clock
+// reading); now < 0: the values as a parser returns them.
+func pvals(rr dns.RR, now int64) []string {
 	var out []string
+	tm := func(t uint32) string {
+		if now < 0 {
+			return "i:" + strconv.FormatUint(uint64(t), 10)
+		}
+		return "m:" + strconv.FormatInt(now, 10) + ":" + strconv.FormatUint(uint64(t), 10)
+	}
+	u := func(v uint64) string { return "i:" + strconv.FormatUint(v, 10) }
+	sized := func(n uint8, s string) string { return "z:" + Itoa(int(n)) + ":" + Hs(s) }
+	types := func(ts []uint16) string {
+		var o []string
+		for _, x := range ts {
+			o = append(o, Itoa(int(x)))
+		}
+		return "t:" + strings.Join(o, ",")
+	}
+	rrsig := func(x *dns.RRSIG) []string {
+		return []string{u(uint64(x.TypeCovered)), u(uint64(x.Algorithm)), u(uint64(x.Labels)), u(uint64(x.OrigTtl)), tm(x.Expiration), tm(x.Inception),
+			u(uint64(x.KeyTag)), "n:" + Hs(x.SignerName), "w:" + Hs(x.Signature)}
+	}
 	var walk func(v reflect.Value)
 	walk = func(v reflect.Value) {
 		t := v.Type()
@@ -109,6 +132,9 @@ func pvals(rr dns.RR) []string {
 				out = append(out, "t:"+strings.Join(o, ","))
 			case fv.Kind() >= reflect.Uint8 && fv.Kind() <= reflect.Uint64:
 				out = append(out, "i:"+strconv.FormatUint(fv.Uint(), 10))
+			case tag == "" && fv.Kind() == reflect.String:
+				// printed verbatim (X25, NAPTR, CAA tag)
+				out = append(out, "w:"+Hs(fv.String()))
 			default:
 				out = append(out, "?:"+f.Name)
 			}
@@ -119,6 +145,20 @@ func pvals(rr dns.RR) []string {
 		return []string{"a:" + Hx(x.A.To4())}
 	case *dns.L32:
 		return []string{"i:" + Itoa(int(x.Preference)), "a:" + Hx(x.Locator32.To4())}
+	case *dns.HINFO:
+		return []string{"s:" + hexList([]string{x.Cpu, x.Os})}
+	case *dns.ISDN:
+		return []string{"s:" + hexList([]string{x.Address, x.SubAddress})}
+	case *dns.UINFO:
+		return []string{"o:" + Hs(x.Uinfo)}
+	case *dns.NSEC3PARAM:
+		return []string{u(uint64(x.Hash)), u(uint64(x.Flags)), u(uint64(x.Iterations)), sized(x.SaltLength, x.Salt)}
+	case *dns.NSEC3:
+		return []string{u(uint64(x.Hash)), u(uint64(x.Flags)), u(uint64(x.Iterations)), sized(x.SaltLength, x.Salt), sized(x.HashLength, x.NextDomain), types(x.TypeBitMap)}
+	case *dns.RRSIG:
+		return rrsig(x)
+	case *dns.SIG:
+		return rrsig(&x.RRSIG)
 	}
 	walk(reflect.ValueOf(rr).Elem())
 	return out
@@ -155,7 +195,7 @@ func showRRAs(line, form string) string {
 		_, _, rd, _ := splitPacked(p)
 		return s + "generic:" + Hx(rd)
 	case "fields":
-		return s + "fields:" + strings.Join(pvals(rr), ";")
+		return s + "fields:" + strings.Join(pvals(rr, -1), ";")
 	}
 	return s + "unmodelled"
 }
@@ -409,6 +449,58 @@ func emitCodes(r *Rng, tier string) {
 		regs = append(regs, Itoa(k))
 	}
 	Emit("tables", nil, tbl(dns.TypeToString)+";"+tbl(dns.ClassToString)+";"+strings.Join(regs, ","))
+	tbl8 := func(m map[uint8]string) string {
+		m16 := map[uint16]string{}
+		for k, v := range m {
+			m16[uint16(k)] = v
+		}
+		return tbl(m16)
+	}
+	// CERT mnemonics; the reverse maps must be the inverses
+	revOK := len(dns.StringToCertType) == len(dns.CertTypeToString) && len(dns.StringToAlgorithm) == len(dns.AlgorithmToString)
+	for k, v := range dns.CertTypeToString {
+		if dns.StringToCertType[v] != k {
+			revOK = false
+		}
+	}
+	for k, v := range dns.AlgorithmToString {
+		if dns.StringToAlgorithm[v] != k {
+			revOK = false
+		}
+	}
+	if revOK {
+		Emit("tables2", nil, tbl(dns.CertTypeToString)+";"+tbl8(dns.AlgorithmToString))
+	} else {
+		Emit("tables2", nil, "reverse-maps-differ")
+	}
+	// RRSIG times: TimeToString at the present clock reading, StringToTime
+	now := time.Now().Unix()
+	for _, t := range []uint32{0, 1, 59, 60, 86399, 86400, 951782400, 951868799, 1<<31 - 1, 1 << 31, 1<<31 + 1, 1<<32 - 1, 4107542399, 4107542400,
+		uint32(now), uint32(now) + 1<<31, uint32(now) + 1<<31 - 1, uint32(now) - 1, uint32(r.Next()), uint32(r.Next()), uint32(r.Next()), uint32(r.Next())} {
+		Emit("timetostr", []string{strconv.FormatInt(now, 10), strconv.FormatUint(uint64(t), 10)}, Hs(dns.TimeToString(t)))
+	}
+	for _, s := range []string{"20110403154150", "19700101000000", "19691231235959", "21060207062815", "21060207062816", "20380119031407", "20380119031408",
+		"20000229000000", "19000229000000", "21000229000000", "20240229235959", "20230229000000", "20231301000000", "20230001000000", "20230100000000",
+		"20230132000000", "20230431000000", "20230101240000", "20230101236000", "20230101235960", "20230101235959", "00000101000000", "99991231235959",
+		"2023010123595", "202301012359599", "20230101235959.5", "20230101235959,123456789012", "20230101235959.", "20230101235959.x", "20230101235959x",
+		"2023010a235959", "+0230101235959", "", "1", "4294967295", "20110403 154150", "22420101000000", "30000101000000", "01000101000000"} {
+		v, err := dns.StringToTime(s)
+		o := "none"
+		if err == nil {
+			o = strconv.FormatUint(uint64(v), 10)
+		}
+		Emit("strtotime", []string{Hs(s)}, o)
+	}
+	for i := 0; i < 40; i++ {
+		t := uint32(r.Next())
+		s := time.Unix(int64(t), 0).UTC().Format("20060102150405")
+		v, err := dns.StringToTime(s)
+		o := "none"
+		if err == nil {
+			o = strconv.FormatUint(uint64(v), 10)
+		}
+		Emit("strtotime", []string{Hs(s)}, o)
+	}
 	var cov []string
 	for _, t := range coveredTypes {
 		cov = append(cov, Itoa(int(t)))
@@ -474,6 +566,7 @@ func emitRecords(r *Rng, tier string, types []uint16) (printed []string) {
 			if err != nil || off != len(w) {
 				continue
 			}
+			now := time.Now().Unix()
 			text := rr.String()
 			if i < 3 || tier == "thorough" {
 				hdrCase(rr)
@@ -488,7 +581,7 @@ func emitRecords(r *Rng, tier string, types []uint16) (printed []string) {
 			if !ok {
 				continue
 			}
-			Emit("present", append([]string{Itoa(int(t))}, pvals(rr)...), Hs(rest))
+			Emit("present", append([]string{Itoa(int(t))}, pvals(rr, now)...), Hs(rest))
 			// parse: only text that the oracle accepts (the defects are reported by the oracles)
 			if o := checkRecord(rr, nil); o.Kind == "" || strings.HasPrefix(o.Kind, "generic") || strings.HasPrefix(o.Kind, "torfc") {
 				Emit("rr", []string{Hs(text + "\n")}, showRRAs(text+"\n", "fields"))
@@ -536,9 +629,33 @@ func emitRecords(r *Rng, tier string, types []uint16) (printed []string) {
 		{"x. 5 IN TYPE999 \\# x\n", "generic"}, {"x. 5 IN TYPE999 \\#\n", "generic"}, {"x. 5 IN A \\# 0\n", "generic"},
 		{"x. 5 IN A\n", "none"}, {"x. 5 IN A", "none"}, {"x. 5 IN A\t\n", "none"}, {"x. 5 IN A \n", "none"}, {"x. IN A\n", "none"}, {"x. 5 IN TYPE999\n", "none"},
 		{"x. 5 IN MX\n", "none"}, {"x. 5 ANY A 1.2.3.4\n", "fields"}, {"x. 5 NONE A 1.2.3.4\n", "fields"}, {"x. 5 IN ANY \\# 0\n", "generic"},
-		{"x. 5 IN None \\# 0\n", "generic"}, {"x. 5 IN LOC 1 2 3 N 4 5 6 E 7m\n", "unmodelled"}, {"x. 5 IN HINFO a b\n", "unmodelled"},
+		{"x. 5 IN None \\# 0\n", "generic"}, {"x. 5 IN LOC 1 2 3 N 4 5 6 E 7m\n", "unmodelled"}, {"x. 5 IN HINFO a b\n", "fields"},
 		{"x.. 5 IN A 1.2.3.4\n", "fields"}, {".x. 5 IN A 1.2.3.4\n", "fields"}, {"x\\. 5 IN A 1.2.3.4\n", "fields"}, {"x\\.. 5 IN A 1.2.3.4\n", "fields"},
 		{strings.Repeat("a", 63) + ". 5 IN A 1.2.3.4\n", "fields"}, {strings.Repeat("a", 64) + ". 5 IN A 1.2.3.4\n", "fields"},
+		// the irregular parsers
+		{"x. 5 IN HINFO a\n", "fields"}, {"x. 5 IN HINFO \"a b\"\n", "fields"}, {"x. 5 IN HINFO \"a  b\tc\"\n", "fields"}, {"x. 5 IN HINFO \"a\" \"b\" \"c d\"\n", "fields"},
+		{"x. 5 IN HINFO \"\"\n", "fields"}, {"x. 5 IN HINFO \" \"\n", "fields"}, {"x. 5 IN HINFO \"a\" \"\"\n", "fields"}, {"x. 5 IN HINFO a b c\n", "fields"}, {"x. 5 IN HINFO \"a\n", "fields"},
+		{"x. 5 IN ISDN \"150862028003217\" \"004\"\n", "fields"}, {"x. 5 IN ISDN \"150862028003217\"\n", "fields"}, {"x. 5 IN ISDN 1 2\n", "fields"},
+		{"x. 5 IN UINFO \"a b\"\n", "fields"}, {"x. 5 IN UINFO a b\n", "fields"}, {"x. 5 IN UINFO \"\"\n", "fields"},
+		{"x. 5 IN X25 311061700956\n", "fields"}, {"x. 5 IN X25 \"311061700956\"\n", "fields"}, {"x. 5 IN X25 a b\n", "fields"}, {"x. 5 IN X25 a \n", "fields"},
+		{"x. 5 IN CAA 0 issue \"ca.example.net\"\n", "fields"}, {"x. 5 IN CAA 0 issue ca.example.net\n", "fields"}, {"x. 5 IN CAA 0 \"issue\" \"x\"\n", "fields"},
+		{"x. 5 IN CAA 256 issue \"x\"\n", "fields"}, {"x. 5 IN CAA 0 issue \"a\" \"b\"\n", "fields"}, {"x. 5 IN CAA 0 issue\n", "fields"}, {"x. 5 IN CAA 0 issue \"\"\n", "fields"},
+		{"x. 5 IN NAPTR 100 10 \"u\" \"E2U+sip\" \"!^.*$!sip:a@b!\" .\n", "fields"}, {"x. 5 IN NAPTR 100 10 \"\" \"\" \"\" r.example.\n", "fields"},
+		{"x. 5 IN NAPTR 100 10 u \"\" \"\" .\n", "fields"}, {"x. 5 IN NAPTR 100 10 \"u\" \"\" \"\"\n", "fields"}, {"x. 5 IN NAPTR 100 10 \"a b\" \"c\\\"d\" \"\" rel\n", "fields"},
+		{"x. 5 IN NAPTR 100 10 \"u\"\"v\" \"\" .\n", "fields"}, {"x. 5 IN NAPTR 65536 10 \"\" \"\" \"\" .\n", "fields"}, {"x. 5 IN NAPTR 1 1 \"\" \"\" \"\" . x\n", "fields"},
+		{"x. 5 IN SMIMEA 3 1 1 abcd ef\n", "fields"}, {"x. 5 IN SMIMEA 3 1 1\n", "fields"}, {"x. 5 IN SMIMEA 3 1 256 ab\n", "fields"},
+		{"x. 5 IN NSEC3PARAM 1 0 5 -\n", "fields"}, {"x. 5 IN NSEC3PARAM 1 0 5 aabb\n", "fields"}, {"x. 5 IN NSEC3PARAM 1 0 5\n", "fields"}, {"x. 5 IN NSEC3PARAM 1 0 5 ab cd\n", "fields"},
+		{"x. 5 IN NSEC3PARAM 1 0 5 abc\n", "fields"}, {"x. 5 IN NSEC3PARAM 1 0 65536 -\n", "fields"}, {"x. 5 IN NSEC3PARAM 1 0 5 \"-\"\n", "fields"},
+		{"x. 5 IN NSEC3 1 1 12 aabbccdd 2vptu5timamqttgl4luu9kg21e0aor3s A RRSIG\n", "fields"}, {"x. 5 IN NSEC3 1 1 12 - 2vptu5timamqttgl4luu9kg21e0aor3s\n", "fields"},
+		{"x. 5 IN NSEC3 1 1 12 -\n", "fields"}, {"x. 5 IN NSEC3 1 1 12\n", "fields"}, {"x. 5 IN NSEC3 1 1 12 - 2vptu5timamqttgl4luu9kg21e0aor3s a type65 BOGUS\n", "fields"},
+		{"x. 5 IN CERT PKIX 1 RSASHA256 AAAA\n", "fields"}, {"x. 5 IN CERT 1 1 8 AAAA BBBB\n", "fields"}, {"x. 5 IN CERT pkix 1 8 AAAA\n", "fields"}, {"x. 5 IN CERT 65535 65535 255 AAAA\n", "fields"},
+		{"x. 5 IN CERT 65536 1 8 AAAA\n", "fields"}, {"x. 5 IN CERT URI 1 256 AAAA\n", "fields"}, {"x. 5 IN CERT OID 1 PRIVATEOID AAAA\n", "fields"}, {"x. 5 IN CERT 1 1 rsasha256 AAAA\n", "fields"},
+		{"x. 5 IN CERT PKIX 1 8\n", "fields"}, {"x. 5 IN CERT PKIX 1\n", "fields"},
+		{"x. 5 IN RRSIG A 8 2 3600 20110403154150 20110303154150 12345 example. AAAA BBBB\n", "fields"}, {"x. 5 IN RRSIG TYPE1 RSASHA256 2 3600 1301845310 0 12345 example. AAAA\n", "fields"},
+		{"x. 5 IN RRSIG type65 8 2 3600 20110403154150.5 4294967295 12345 example AAAA\n", "fields"}, {"x. 5 IN RRSIG a 8 2 3600 4294967296 0 1 e. AAAA\n", "fields"},
+		{"x. 5 IN RRSIG ANY rsasha256 2 3600 1 0 1 e. AAAA\n", "fields"}, {"x. 5 IN RRSIG BOGUS 8 2 3600 1 0 1 e. AAAA\n", "fields"}, {"x. 5 IN RRSIG TYPE65536 8 2 3600 1 0 1 e. AAAA\n", "fields"},
+		{"x. 5 IN RRSIG A 8 2 3600 20230229000000 0 1 e. AAAA\n", "fields"}, {"x. 5 IN RRSIG A 8 2 3600 22420101000000 19700101000000 1 e. AAAA\n", "fields"},
+		{"x. 5 IN RRSIG A 8 2 3600 1 0 1 e.\n", "fields"}, {"x. 5 IN RRSIG A 256 2 3600 1 0 1 e. AAAA\n", "fields"}, {"x. 5 IN SIG A 8 2 3600 20110403154150 20110303154150 12345 example. AAAA\n", "fields"},
 	} {
 		Emit("rr", []string{Hs(c.line)}, showRRAs(c.line, c.form))
 	}
